@@ -498,7 +498,7 @@ def run_uniform(case, res):
     mech = {"fam": case["fam"], "root": info["kind"], "target": case["target"], "mode": case["mode"],
             "nsmall": case.get("nsmall") if case["mode"] == "small" else None, "dep": bool(info["dep"]),
             "dep_product": bool(isinstance(node, geo.Product) and node.dependent()), "scale": info.get("scale", 1.0),
-            "abut": any("abut" in r for r in info.get("relations", [])), **traits}
+            "abut": any("abut" in r or "aligned" in r for r in info.get("relations", [])), **traits}
     try:
         first = _uniform_test(case, D, node, Pp, env, k, case["N"], case["seed"], rng)
     except Exception as e:
